@@ -45,6 +45,9 @@ func runVerify(ctx context.Context, opt verifyOptions, args []string) error {
 	if err != nil {
 		return err
 	}
+	// Verify relies on the store checking every chunk it reads. A "skip-verify"
+	// configured for this store must not turn the verification into a no-op.
+	options.SkipVerify = false
 	s, err := desync.NewLocalStore(opt.store, options)
 	if err != nil {
 		return err
